@@ -9,7 +9,7 @@ From Coq Require Import List ZArith NArith String Bool Permutation Lia.
 From SCC Require Import Base.Sexp Lang.SynUtil Lang.FunSyn Lang.FunTy Lang.CoreSyn Model.Check Sem.FunTyping Sem.FunNames
   Sem.AxSem Sem.FunSem Sem.FsCheck Sem.CoreCheck Model.Fun2Core Model.Fun2CoreGuard Model.Fun2CoreTyGuard
   Proof.FunInd Proof.FunEq Proof.CheckAnn Proof.TypingReject Proof.CheckBuild Proof.CheckMono Proof.CheckMonoSound
-  Proof.PrintInj Proof.CheckPoly Proof.CheckInstBase Proof.CheckPolySound Proof.Fun2CoreInv Proof.Fun2CoreTyBase.
+  Proof.PrintInj Proof.CheckPoly Proof.CheckInstBase Proof.CheckPolySound Proof.CheckScope Proof.Fun2CoreInv Proof.Fun2CoreTyBase.
 Import ListNotations.
 Open Scope string_scope.
 Open Scope list_scope.
@@ -107,6 +107,54 @@ Lemma any_calls_main_eq : forall l,
   (fix go (l : list fterm) : bool := match l with [] => false | y :: r => calls_main y || go r end) l = any_calls_main l.
 Proof. induction l; simpl; [reflexivity|]. rewrite IHl. reflexivity. Qed.
 
+Definition any_cls_cm (l : list fclause) : bool := existsb (fun c => calls_main (clause_body c)) l.
+Lemma any_cls_cm_eq : forall l,
+  (fix go (l : list fclause) : bool :=
+     match l with [] => false | FClause _ _ _ _ body :: r => calls_main body || go r end) l = any_cls_cm l.
+Proof. induction l as [|[? ? ? ? b] r IH]; simpl; [reflexivity|]. rewrite IH. reflexivity. Qed.
+
+Lemma list_eqb_str_refl : forall l, list_eqb String.eqb l l = true.
+Proof. induction l as [|x r IH]; simpl; [reflexivity|]. rewrite String.eqb_refl, IH. reflexivity. Qed.
+Lemma split_last_snoc : forall l b, split_last (l ++ [b]) = Some (l, b).
+Proof.
+  induction l as [|x r IH]; intros b; simpl; [reflexivity|]. rewrite IH.
+  destruct (r ++ [b]) eqn:E; [destruct r; discriminate|reflexivity].
+Qed.
+Lemma fparams_ok_zip : forall ns sg, List.length ns = List.length sg ->
+  fparams_ok (compile_ctx (zip_names ns sg)) (compile_ctx sg) = true.
+Proof.
+  induction ns as [|n r IH]; intros [|b br] H; simpl in *; try discriminate; [reflexivity|].
+  rewrite IH by lia. unfold csame_sig. simpl.
+  rewrite (proj2 (cchi_eqb_eq _ _) eq_refl), (proj2 (cty_eqb_eq _ _) eq_refl). reflexivity.
+Qed.
+Lemma zip_names_in_ty : forall ns sg b, In b (zip_names ns sg) -> exists b', In b' sg /\ fbty b = fbty b'.
+Proof.
+  induction ns as [|n r IH]; intros [|x br] b H; simpl in *; try contradiction.
+  destruct H as [<-|H]; [exists x; simpl; auto|]. destruct (IH _ _ H) as [b' [? ?]]. eauto.
+Qed.
+
+(* ---------- printed names ---------- *)
+Definition show_items := fix go (l : list fty) : string :=
+  match l with [] => ""%string | x :: l' => (", " ++ show_fty x ++ go l')%string end.
+Lemma show_items_print : forall r, Forall (fun t => show_fty t = print_ty t) r ->
+  (show_items r ++ "]")%string = fold_right (fun b acc => (", " ++ print_ty b ++ acc)%string) "]"%string r.
+Proof.
+  intros r H. induction H as [|x l Hx _ IH]; [reflexivity|].
+  change (show_items (x :: l)) with (", " ++ show_fty x ++ show_items l)%string. cbn [fold_right].
+  rewrite <- IH, Hx. rewrite !append_assoc. reflexivity.
+Qed.
+Lemma show_fty_print : forall t, show_fty t = print_ty t.
+Proof.
+  induction t using fty_ind'; [reflexivity|].
+  destruct args as [|a r].
+  - simpl. rewrite append_nil_r'. reflexivity.
+  - inversion H as [|? ? Ha Hr]; subst.
+    change (show_fty (FDecl n (a :: r))) with (n ++ "[" ++ show_fty a ++ show_items r ++ "]")%string.
+    rewrite (show_items_print r Hr), Ha. reflexivity.
+Qed.
+Lemma compile_ty_decl : forall n a, compile_ty (FDecl n a) = CDecl (new_id (n ++ print_targs a)).
+Proof. intros n a. unfold compile_ty. rewrite show_fty_print, print_ty_decl. reflexivity. Qed.
+
 Section Tg.
   Variable ts : list tdecl.
   Variable fs : list fdef.
@@ -121,6 +169,26 @@ Section Tg.
   Hypothesis HdefF : forall f d, FunTyping.find_def fs f = Some d ->
     exists d', ffind_def q f = Some d' /\ fdctx d' = fdctx d /\ fdret d' = fdret d.
 
+  Definition ctx_inst (ctx : fctx) : Prop := forall b, In b ctx -> has_inst_p stF (fbty b).
+  (* the declarations of the final world: every instance of stF is a compiled declaration whose xtors are the
+     instantiated xtors of its template, in declaration order, with instantiated field types *)
+  Definition Rdata (td : tdecl) (targs : list fty) (s : xsig) (c : fctorsig) : Prop :=
+    fctname c = xs_name s /\ fctargs c = inst_ctx (td_params td) targs (xs_args s) /\ ctx_inst (fctargs c).
+  Definition Rcodata (td : tdecl) (targs : list fty) (s : xsig) (c : fdtorsig) : Prop :=
+    fdtname c = xs_name s /\ fdtargs c = inst_ctx (td_params td) targs (xs_args s)
+    /\ (exists r0, xs_ret s = Some r0 /\ fdtcont c = inst (td_params td) targs r0)
+    /\ ctx_inst (fdtargs c) /\ has_inst_p stF (fdtcont c).
+  Hypothesis HdataF : forall td targs, In td ts -> td_pol td = FData -> targs_ok ts td targs ->
+    has_inst_p stF (FDecl (td_name td) targs) ->
+    exists cs, find_decl D (new_id (td_name td ++ print_targs targs))
+               = Some (mkct CData (new_id (td_name td ++ print_targs targs)) (map compile_ctor cs))
+      /\ Forall2 (Rdata td targs) (td_xtors td) cs.
+  Hypothesis HcodataF : forall td targs, In td ts -> td_pol td = FCodata -> targs_ok ts td targs ->
+    has_inst_p stF (FDecl (td_name td) targs) ->
+    exists ds, find_decl C (new_id (td_name td ++ print_targs targs))
+               = Some (mkct CCodata (new_id (td_name td ++ print_targs targs)) (map compile_dtor ds))
+      /\ Forall2 (Rcodata td targs) (td_xtors td) ds.
+
   Notation tg := (tg q D C).
   Notation tg_args := (tg_args q D C).
   Notation tg_arg := (tg_arg q D C).
@@ -132,13 +200,33 @@ Section Tg.
   Lemma same_ty_of : forall t T, fterm_type t = Some T -> same_ty t (Some T) = true.
   Proof. intros t T H. simpl. apply has_ty_of. exact H. Qed.
 
-  Definition ctx_inst (ctx : fctx) : Prop := forall b, In b ctx -> has_inst_p stF (fbty b).
   Lemma ctx_inst_snoc : forall ctx b, ctx_inst ctx -> has_inst_p stF (fbty b) -> ctx_inst (ctx ++ [b]).
   Proof. intros ctx b H Hb x Hx. apply in_app_or in Hx. destruct Hx as [Hx|[<-|[]]]; auto. Qed.
 
+  Lemma ctx_inst_app : forall a b, ctx_inst a -> ctx_inst b -> ctx_inst (a ++ b).
+  Proof. intros a b Ha Hb x Hx. apply in_app_or in Hx. destruct Hx; auto. Qed.
+  Lemma ctx_inst_zip : forall ns sg, ctx_inst sg -> ctx_inst (zip_names ns sg).
+  Proof. intros ns sg H b Hb. destruct (zip_names_in_ty _ _ _ Hb) as [b' [Hin ->]]. auto. Qed.
+
+  Lemma find_ctor_sig : forall td targs n s ss cs, Forall2 (Rdata td targs) ss cs ->
+    find (fun s => String.eqb (xs_name s) n) ss = Some s ->
+    exists c, find (fun sg => cident_eqb (cxname sg) (new_id n)) (map compile_ctor cs) = Some (compile_ctor c) /\ Rdata td targs s c.
+  Proof.
+    intros td targs n s ss cs HF. induction HF as [|x c l l' R _ IH]; simpl; intros Hf; [discriminate|].
+    pose proof R as [En _]. rewrite cid_eqb_new_id, En.
+    destruct (String.eqb (xs_name x) n); [inversion Hf; subst; eauto|auto].
+  Qed.
+  Lemma find_dtor_sig : forall td targs n s ss ds, Forall2 (Rcodata td targs) ss ds ->
+    find (fun s => String.eqb (xs_name s) n) ss = Some s ->
+    exists c, find (fun sg => cident_eqb (cxname sg) (new_id n)) (map compile_dtor ds) = Some (compile_dtor c) /\ Rcodata td targs s c.
+  Proof.
+    intros td targs n s ss ds HF. induction HF as [|x c l l' R _ IH]; simpl; intros Hf; [discriminate|].
+    pose proof R as [En _]. rewrite cid_eqb_new_id, En.
+    destruct (String.eqb (xs_name x) n); [inversion Hf; subst; eauto|auto].
+  Qed.
+
   Definition ptg_at (t : fterm) : Prop :=
     forall eager st ctx T t' st' G,
-      core_frag t = true ->
       term_names_ok t = true -> ctx_names_ok ctx = true -> ty_names_ok T = true -> tables ts fs st -> pinv st ->
       check_term_gen eager t st ctx T = COk (t', st') ->
       grows st' stF -> has_inst_p stF T -> ctx_rel ctx G -> ctx_inst ctx ->
@@ -151,9 +239,11 @@ Section Tg.
   Lemma all_psound : forall l, Forall (psound_at ts fs) l.
   Proof. intros l. apply Forall_forall. intros x _. apply check_term_gen_psound. exact W. Qed.
 
+  Lemma all_psound_cls : forall l, Forall (fun c => psound_at ts fs (clause_body c)) l.
+  Proof. intros l. apply Forall_forall. intros x _. apply check_term_gen_psound. exact W. Qed.
+
   Lemma check_args_with_ptg : forall args, Forall ptg_at args ->
     forall eager sg st ctx args' st' G,
-      core_frags args = true ->
       terms_names_ok args = true -> ctx_names_ok ctx = true -> ctx_names_ok sg = true ->
       tables ts fs st -> pinv st ->
       check_args_with (check_term_gen eager) args sg st ctx = COk (args', st') ->
@@ -162,11 +252,10 @@ Section Tg.
       (any_calls_main args' = true -> calls_main_prog q = true) ->
       tg_args G args' (compile_ctx sg) = true.
   Proof.
-    intros args HF. induction HF as [|a ar Ha HFr IH]; intros eager sg st ctx args' st' G Hf Hm Hc Ht T I H Hlen GF R CI Hcm.
+    intros args HF. induction HF as [|a ar Ha HFr IH]; intros eager sg st ctx args' st' G Hm Hc Ht T I H Hlen GF R CI Hcm.
     - destruct sg; [|discriminate]. simpl in H. inversion H; subst. reflexivity.
-    - destruct sg as [|b br]; [discriminate|]. simpl in Hlen. simpl in Hm, Ht, Hf.
+    - destruct sg as [|b br]; [discriminate|]. simpl in Hlen. simpl in Hm, Ht.
       apply andb_true_iff in Hm. destruct Hm as [Hma Hmr]. apply andb_true_iff in Ht. destruct Ht as [Htb Htr].
-      apply andb_true_iff in Hf. destruct Hf as [Hfa Hfr].
       simpl in H.
       destruct (fbchi b) eqn:Ech.
       + (* producer argument *)
@@ -182,10 +271,10 @@ Section Tg.
         rewrite inst_ctx_nil in H3.
         assert (G2F : grows st2 stF) by frame.
         assert (HiF : has_inst_p stF (fbty b)) by (eapply has_inst_grows; [|exact Hi1]; frame).
-        destruct (Ha eager st1 ctx _ a' st2 G Hfa Hma Hc Htb (tables_same _ _ _ _ T S1) I1 H2 G2F HiF R CI ltac:(cm Hcm)) as [K1 [K2 K3]].
+        destruct (Ha eager st1 ctx _ a' st2 G Hma Hc Htb (tables_same _ _ _ _ T S1) I1 H2 G2F HiF R CI ltac:(cm Hcm)) as [K1 [K2 K3]].
         simpl compile_ctx. rewrite tg_args_cons. unfold Fun2CoreTyGuard.tg_arg. simpl cbchi. rewrite Ech. simpl compile_chi. cbv iota.
         rewrite K3, K1. simpl cbty. rewrite (has_ty_of _ _ K2), (HtyF _ Htb HiF). simpl.
-        apply (IH eager br st2 ctx ar' st' G Hfr Hmr Hc Htr (tables_same _ _ _ _ T S12) I2 H3); [lia|exact GF|exact R|exact CI|cm Hcm].
+        apply (IH eager br st2 ctx ar' st' G Hmr Hc Htr (tables_same _ _ _ _ T S12) I2 H3); [lia|exact GF|exact R|exact CI|cm Hcm].
       + (* consumer argument: a covariable *)
         destruct a as [v ann chi| | | | | | | | | | | | | |]; try discriminate.
         assert (Hgo : exists found st1 st2 ar', lookup_covar ctx v = COk found
@@ -214,11 +303,10 @@ Section Tg.
         pose proof (var_ok_rel _ _ _ _ R Hb0) as Hv. rewrite Hb0c, Hbt in Hv. simpl in Hv. rewrite Hv.
         simpl cbty. rewrite Heq. rewrite (has_ty_of (FVar v (Some found) (Some FCns)) found eq_refl).
         rewrite <- Heq. rewrite (HtyF _ Htb HiF). simpl.
-        apply (IH eager br st2 ctx ar' st' G Hfr Hmr Hc Htr (tables_same _ _ _ _ T S12) I2 H3); [lia|exact GF|exact R|exact CI|cm Hcm].
+        apply (IH eager br st2 ctx ar' st' G Hmr Hc Htr (tables_same _ _ _ _ T S12) I2 H3); [lia|exact GF|exact R|exact CI|cm Hcm].
   Qed.
   Lemma check_args_ptg : forall args, Forall ptg_at args ->
     forall eager sg st ctx args' st' G,
-      core_frags args = true ->
       terms_names_ok args = true -> ctx_names_ok ctx = true -> ctx_names_ok sg = true ->
       tables ts fs st -> pinv st ->
       check_args (check_term_gen eager) args sg st ctx = COk (args', st') ->
@@ -226,10 +314,10 @@ Section Tg.
       (any_calls_main args' = true -> calls_main_prog q = true) ->
       tg_args G args' (compile_ctx sg) = true.
   Proof.
-    intros args HF eager sg st ctx args' st' G Hf Hm Hc Ht T I H GF R CI Hcm. unfold check_args in H.
+    intros args HF eager sg st ctx args' st' G Hm Hc Ht T I H GF R CI Hcm. unfold check_args in H.
     destruct (Nat.eqb (List.length sg) (List.length args)) eqn:El; [|discriminate]. simpl in H.
     apply PeanoNat.Nat.eqb_eq in El.
-    exact (check_args_with_ptg args HF eager sg st ctx args' st' G Hf Hm Hc Ht T I H (eq_sym El) GF R CI Hcm).
+    exact (check_args_with_ptg args HF eager sg st ctx args' st' G Hm Hc Ht T I H (eq_sym El) GF R CI Hcm).
   Qed.
 
   (* the frame facts of one step, from Proof/CheckPolySound.v *)
@@ -243,10 +331,175 @@ Section Tg.
     splits; auto. eapply tables_same; eassumption.
   Qed.
 
+  (* ---------- clauses ---------- *)
+  Notation tg_clauses := (tg_clauses q D C).
+  Notation tg_coclauses := (tg_coclauses q D C).
+
+  Definition pc_ptg (pc : pclause) : Prop :=
+    forall st ctx T t' st' G,
+      ctx_names_ok ctx = true -> ty_names_ok T = true -> tables ts fs st -> pinv st ->
+      pc_chk pc st ctx T = COk (t', st') ->
+      grows st' stF -> has_inst_p stF T -> ctx_rel ctx G -> ctx_inst ctx ->
+      (calls_main t' = true -> calls_main_prog q = true) ->
+      tg G t' = true /\ fterm_type t' = Some T.
+
+  Lemma prep_clauses_ptg : forall eager cls,
+    Forall (fun c => ptg_at (clause_body c)) cls -> clauses_names_ok cls = true ->
+    Forall pc_ptg (prep_clauses (check_term_gen eager) cls).
+  Proof.
+    intros eager cls HF. induction HF as [|[p x ns c b] r Hc _ IH]; intros Hm; simpl; constructor.
+    - simpl in Hm. apply andb_true_iff in Hm. destruct Hm as [Hb _].
+      unfold clause_names_ok in Hb. apply andb_true_iff in Hb. destruct Hb as [_ Hb].
+      unfold pc_ptg. simpl. intros st ctx T t' st' G H1 H2 H3 H4 H5 H6 H7 H8 H9 H10.
+      destruct (Hc eager st ctx T t' st' G Hb H1 H2 H3 H4 H5 H6 H7 H8 H9 H10) as [K1 [K2 _]]. auto.
+    - apply IH. simpl in Hm. apply andb_true_iff in Hm. tauto.
+  Qed.
+
+  (* the part of one round of check_clauses that both kinds of clauses share *)
+  Lemma clause_round : forall (is_case : bool) T td targs s sr pcls st ctx cls' leftover st',
+    Forall (pc_psound ts fs) pcls -> Forall pc_ptg pcls ->
+    ctx_names_ok ctx = true -> tables ts fs st -> pinv st ->
+    In td ts -> targs_ok ts td targs -> (forall s0, In s0 (s :: sr) -> In s0 (td_xtors td)) ->
+    td_pol td = (if is_case then FData else FCodata) -> (is_case = true -> ty_names_ok T = true) ->
+    check_clauses is_case (print_targs targs) T (map xs_name (s :: sr)) pcls st ctx = COk (cls', leftover, st') ->
+    exists cl pcls' bty body' st1 rest,
+      Forall (pc_psound ts fs) pcls' /\ Forall pc_ptg pcls' /\ pc_ptg cl
+      /\ pc_xtor cl = xs_name s
+      /\ (if is_case then bty = T else exists r0, xs_ret s = Some r0 /\ bty = inst (td_params td) targs r0)
+      /\ ty_names_ok bty = true
+      /\ nodup (pc_names cl) = true
+      /\ List.length (pc_names cl) = List.length (xs_args s)
+      /\ ctx_names_ok (ctx ++ zip_names (pc_names cl) (inst_ctx (td_params td) targs (xs_args s))) = true
+      /\ pc_chk cl st (ctx ++ zip_names (pc_names cl) (inst_ctx (td_params td) targs (xs_args s))) bty = COk (body', st1)
+      /\ tables ts fs st1 /\ pinv st1
+      /\ check_clauses is_case (print_targs targs) T (map xs_name sr) pcls' st1 ctx = COk (rest, leftover, st')
+      /\ grows st1 st'
+      /\ cls' = FClause (pc_pol cl) (pc_xtor cl) (pc_names cl)
+                  (zip_names (pc_names cl) (inst_ctx (td_params td) targs (xs_args s))) body' :: rest.
+  Proof.
+    intros is_case T td targs s sr pcls st ctx cls' leftover st' HFs HFp Hc Tb I Htd Hok Hss Hpol HT H.
+    simpl in H.
+    destruct (swap_remove_first (fun c => String.eqb (pc_xtor c) (xs_name s)) pcls) as [[cl pcls']|] eqn:Es; [|destruct is_case; discriminate].
+    apply swap_remove_first_spec in Es. destruct Es as [Hx Hperm]. apply String.eqb_eq in Hx.
+    assert (HFs' : Forall (pc_psound ts fs) (cl :: pcls')).
+    { eapply Permutation_Forall; [apply Permutation_sym; eassumption|assumption]. }
+    assert (HFp' : Forall pc_ptg (cl :: pcls')).
+    { eapply Permutation_Forall; [apply Permutation_sym; eassumption|assumption]. }
+    inversion HFs' as [|? ? Hcls HFsr]; subst. inversion HFp' as [|? ? Hclp HFpr]; subst.
+    apply cbind_ok in H. destruct H as [[sg bty] [Hsig H]].
+    apply cbind_ok in H. destruct H as [[] [Hnd H]].
+    apply cbind_ok in H. destruct H as [cctx [Hadd H]].
+    apply cbind_ok in H. destruct H as [[body' st1] [Hbody H]].
+    apply cbind_ok in H. destruct H as [[[rest left'] st2] [Hrest H]]. inversion H; subst.
+    assert (Hs : In s (td_xtors td)) by (apply Hss; left; reflexivity).
+    pose proof (PW_xnames _ _ W td s Htd Hs) as Nx.
+    pose proof (targs_ok_names ts fs W _ _ Hok) as Nt.
+    destruct (PW_sigs _ _ W td s Htd Hs) as [Nsg Nret].
+    assert (Hsg : sg = inst_ctx (td_params td) targs (xs_args s)
+                  /\ (if is_case then bty = T else exists r0, xs_ret s = Some r0 /\ bty = inst (td_params td) targs r0)).
+    { destruct is_case.
+      - destruct (aget (st_ctors st) (xs_name s ++ print_targs targs)%string) as [sg0|] eqn:Eg; [|discriminate]. inversion Hsig; subst.
+        destruct (ctor_instance_sound ts fs W _ _ _ _ I Nx Nt Eg) as [td' [s' [Htd' [Hp' [Hs' [Hn' [_ ->]]]]]]].
+        destruct (xtor_owner_unique ts fs W td td' s s' Htd Htd' ltac:(congruence) Hs Hs' ltac:(congruence)) as [<- <-].
+        auto.
+      - destruct (aget (st_dtors st) (xs_name s ++ print_targs targs)%string) as [[sg0 ret0]|] eqn:Eg; [|discriminate]. inversion Hsig; subst.
+        destruct (dtor_instance_sound ts fs W _ _ _ _ _ I Nx Nt Eg) as [td' [s' [r0 [Htd' [Hp' [Hs' [Hn' [_ [Hr [-> ->]]]]]]]]]].
+        destruct (xtor_owner_unique ts fs W td td' s s' Htd Htd' ltac:(congruence) Hs Hs' ltac:(congruence)) as [<- <-].
+        eauto. }
+    destruct Hsg as [-> Hbty].
+    unfold add_types in Hadd. rewrite inst_ctx_length in Hadd.
+    destruct (Nat.eqb (List.length (pc_names cl)) (List.length (xs_args s))) eqn:Elen; [|discriminate]. simpl in Hadd.
+    inversion Hadd; subst cctx. apply PeanoNat.Nat.eqb_eq in Elen.
+    assert (Hmb : ty_names_ok bty = true).
+    { destruct is_case; [subst; auto|]. destruct Hbty as [r0 [Hr ->]]. rewrite Hr in Nret. apply inst_names_ok; assumption. }
+    assert (Hmc : ctx_names_ok (ctx ++ zip_names (pc_names cl) (inst_ctx (td_params td) targs (xs_args s))) = true).
+    { apply ctx_names_ok_app; [assumption|]. apply ctx_names_ok_zip. apply inst_ctx_names_ok; assumption. }
+    destruct (Hcls st _ bty body' st1 Hmc Hmb Tb I Hbody) as [_ [I1 [S1 [G1 _]]]].
+    pose proof (tables_same _ _ _ _ Tb S1) as Tb1.
+    destruct (check_clauses_psound ts fs W is_case T td targs (map xs_name sr) pcls' st1 ctx rest leftover st' HFsr Hc Tb1 I1 Htd Hok)
+      as [used [_ [_ [_ [I2 [S2 [G2 _]]]]]]]; auto.
+    { intros y Hy. apply in_map_iff in Hy. destruct Hy as [s0 [<- Hs0]]. apply in_map. apply Hss. right. assumption. }
+    exists cl, pcls', bty, body', st1, rest. splits; auto.
+    apply names_no_dups_ok. exact Hnd.
+  Qed.
+
+  Lemma check_clauses_case_ptg : forall T td targs ss pcls st ctx cls' leftover st' G cs,
+    Forall (pc_psound ts fs) pcls -> Forall pc_ptg pcls ->
+    ctx_names_ok ctx = true -> tables ts fs st -> pinv st ->
+    In td ts -> targs_ok ts td targs -> (forall s, In s ss -> In s (td_xtors td)) -> td_pol td = FData ->
+    ty_names_ok T = true -> has_inst_p stF T ->
+    check_clauses true (print_targs targs) T (map xs_name ss) pcls st ctx = COk (cls', leftover, st') ->
+    grows st' stF -> ctx_rel ctx G -> ctx_inst ctx ->
+    (any_cls_cm cls' = true -> calls_main_prog q = true) ->
+    Forall2 (Rdata td targs) ss cs ->
+    tg_clauses G (Some T) cls' (map compile_ctor cs) = true.
+  Proof.
+    intros T td targs ss. induction ss as [|s sr IH];
+      intros pcls st ctx cls' leftover st' G cs HFs HFp Hc Tb I Htd Hok Hss Hpol HT HiT H GF R CI Hcm HR.
+    - simpl in H. inversion H; subst. inversion HR; subst. reflexivity.
+    - inversion HR as [|? c ? cr Rc HRr]; subst.
+      destruct (clause_round true T td targs s sr pcls st ctx cls' leftover st' HFs HFp Hc Tb I Htd Hok Hss Hpol (fun _ => HT) H)
+        as [cl [pcls' [bty [body' [st1 [rest [HFs' [HFp' [Hclp [Hx [Hbty [Hmb [Hnd [Hlen [Hmc [Hbody [Tb1 [I1 [Hrest [G1 ->]]]]]]]]]]]]]]]]]]]].
+      subst bty. destruct Rc as [En [Ea Ei]].
+      set (cctx := zip_names (pc_names cl) (inst_ctx (td_params td) targs (xs_args s))) in *.
+      assert (Hfv : fvars cctx = pc_names cl).
+      { unfold fvars, cctx. apply zip_names_vars. rewrite inst_ctx_length. exact Hlen. }
+      assert (Hnd' : nodup (fvars cctx) = true) by (rewrite Hfv; exact Hnd).
+      destruct (Hclp st _ T body' st1 (compile_ctx cctx ++ G) Hmc HT Tb I Hbody (grows_trans _ _ _ G1 GF) HiT
+                  (ctx_rel_app _ _ _ Hnd' R)) as [K1 K2].
+      { apply ctx_inst_app; [exact CI|]. apply ctx_inst_zip. rewrite <- Ea. exact Ei. }
+      { intros X. apply Hcm. unfold any_cls_cm. simpl. rewrite X. reflexivity. }
+      simpl map. rewrite tg_clauses_cons. unfold Fun2CoreTyGuard.tg_clause.
+      rewrite Hfv, list_eqb_str_refl. unfold compile_ctor at 1. simpl cxname. rewrite cid_eqb_new_id, Hx, En, String.eqb_refl.
+      simpl cxargs. rewrite Ea. unfold cctx at 1. rewrite fparams_ok_zip by (rewrite inst_ctx_length; exact Hlen).
+      rewrite nodup_str_eq, Hnd, K1, (same_ty_of _ _ K2). simpl.
+      apply (IH pcls' st1 ctx rest leftover st' G cr HFs' HFp' Hc Tb1 I1 Htd Hok); auto.
+      + intros s0 Hs0. apply Hss. right. exact Hs0.
+      + intros X. apply Hcm. unfold any_cls_cm in *. simpl. rewrite X. apply orb_true_r.
+  Qed.
+
+  Lemma check_clauses_new_ptg : forall T td targs ss pcls st ctx cls' leftover st' G ds,
+    Forall (pc_psound ts fs) pcls -> Forall pc_ptg pcls ->
+    ctx_names_ok ctx = true -> tables ts fs st -> pinv st ->
+    In td ts -> targs_ok ts td targs -> (forall s, In s ss -> In s (td_xtors td)) -> td_pol td = FCodata ->
+    check_clauses false (print_targs targs) T (map xs_name ss) pcls st ctx = COk (cls', leftover, st') ->
+    grows st' stF -> ctx_rel ctx G -> ctx_inst ctx ->
+    (any_cls_cm cls' = true -> calls_main_prog q = true) ->
+    Forall2 (Rcodata td targs) ss ds ->
+    tg_coclauses G cls' (map compile_dtor ds) = true.
+  Proof.
+    intros T td targs ss. induction ss as [|s sr IH];
+      intros pcls st ctx cls' leftover st' G ds HFs HFp Hc Tb I Htd Hok Hss Hpol H GF R CI Hcm HR.
+    - simpl in H. inversion H; subst. inversion HR; subst. reflexivity.
+    - inversion HR as [|? c ? cr Rc HRr]; subst.
+      destruct (clause_round false T td targs s sr pcls st ctx cls' leftover st' HFs HFp Hc Tb I Htd Hok Hss Hpol
+                  (fun X => ltac:(discriminate X)) H)
+        as [cl [pcls' [bty [body' [st1 [rest [HFs' [HFp' [Hclp [Hx [Hbty [Hmb [Hnd [Hlen [Hmc [Hbody [Tb1 [I1 [Hrest [G1 ->]]]]]]]]]]]]]]]]]]]].
+      destruct Hbty as [r0 [Hr0 ->]]. destruct Rc as [En [Ea [[r1 [Hr1 Er]] [Ei Hic]]]].
+      rewrite Hr0 in Hr1. inversion Hr1; subst r1. clear Hr1.
+      set (cctx := zip_names (pc_names cl) (inst_ctx (td_params td) targs (xs_args s))) in *.
+      assert (Hfv : fvars cctx = pc_names cl).
+      { unfold fvars, cctx. apply zip_names_vars. rewrite inst_ctx_length. exact Hlen. }
+      assert (Hnd' : nodup (fvars cctx) = true) by (rewrite Hfv; exact Hnd).
+      rewrite Er in Hic.
+      destruct (Hclp st _ _ body' st1 (compile_ctx cctx ++ G) Hmc Hmb Tb I Hbody (grows_trans _ _ _ G1 GF) Hic
+                  (ctx_rel_app _ _ _ Hnd' R)) as [K1 K2].
+      { apply ctx_inst_app; [exact CI|]. apply ctx_inst_zip. rewrite <- Ea. exact Ei. }
+      { intros X. apply Hcm. unfold any_cls_cm. simpl. rewrite X. reflexivity. }
+      simpl map. rewrite tg_coclauses_cons. unfold Fun2CoreTyGuard.tg_coclause.
+      rewrite Hfv, list_eqb_str_refl. unfold compile_dtor at 1. simpl cxname. rewrite cid_eqb_new_id, Hx, En, String.eqb_refl.
+      simpl cxargs. rewrite split_last_snoc. rewrite Ea. unfold cctx at 1. rewrite fparams_ok_zip by (rewrite inst_ctx_length; exact Hlen).
+      simpl cbchi. simpl cbty. rewrite Er, (has_ty_of _ _ K2), (HtyF _ Hmb Hic).
+      rewrite nodup_str_eq, Hnd, K1. simpl.
+      apply (IH pcls' st1 ctx rest leftover st' G cr HFs' HFp' Hc Tb1 I1 Htd Hok); auto.
+      + intros s0 Hs0. apply Hss. right. exact Hs0.
+      + intros X. apply Hcm. unfold any_cls_cm in *. simpl. rewrite X. apply orb_true_r.
+  Qed.
+
   Theorem check_term_gen_ptg : forall t, ptg_at t.
   Proof.
     intros t. induction t using fterm_ind'; unfold ptg_at;
-      intros eager st ctx T t' st' G Hf Hm Hc HT Tb I Hk GF HiT R CI Hcm; simpl in Hk; simpl in Hm; simpl in Hf; try discriminate Hf.
+      intros eager st ctx T t' st' G Hm Hc HT Tb I Hk GF HiT R CI Hcm; simpl in Hk; simpl in Hm.
     - (* FVar *)
       assert (Hx : exists found st1, lookup_var ctx v = COk found /\
                        match ty with Some t => check_equality st t found | None => COk st end = COk st1 /\
@@ -267,21 +520,21 @@ Section Tg.
       apply cbind_ok in Hk. destruct Hk as [st1 [H1 Hk]]. inversion Hk; subst.
       destruct (check_equality_sound ts fs W T FI64 _ _ HT eq_refl Tb I H1) as [Heq _]. subst T. auto.
     - (* FOp *)
-      apply andb_true_iff in Hm. destruct Hm as [Hm1 Hm2]. apply andb_true_iff in Hf. destruct Hf as [Hf1 Hf2].
+      apply andb_true_iff in Hm. destruct Hm as [Hm1 Hm2].
       apply cbind_ok in Hk. destruct Hk as [st1 [H1 Hk]].
       apply cbind_ok in Hk. destruct Hk as [[a' st2] [H2 Hk]].
       apply cbind_ok in Hk. destruct Hk as [[b' st3] [H3 Hk]]. inversion Hk; subst.
       destruct (check_equality_sound ts fs W FI64 T _ _ eq_refl HT Tb I H1) as [Heq [_ [I1 [S1 [G1 _]]]]]. subst T.
       destruct (step_frame _ _ _ _ FI64 _ _ Hm1 Hc eq_refl (tables_same _ _ _ _ Tb S1) I1 H2) as [I2 [S2 [G2 Tb2]]].
       destruct (step_frame _ _ _ _ FI64 _ _ Hm2 Hc eq_refl Tb2 I2 H3) as [I3 [S3 [G3 Tb3]]].
-      destruct (IHt1 eager st1 ctx FI64 a' st2 G Hf1 Hm1 Hc eq_refl (tables_same _ _ _ _ Tb S1) I1 H2 ltac:(frame) Logic.I R CI ltac:(cm Hcm)) as [K1 [K2 _]].
-      destruct (IHt2 eager st2 ctx FI64 b' st' G Hf2 Hm2 Hc eq_refl Tb2 I2 H3 GF Logic.I R CI ltac:(cm Hcm)) as [K3 [K4 _]].
+      destruct (IHt1 eager st1 ctx FI64 a' st2 G Hm1 Hc eq_refl (tables_same _ _ _ _ Tb S1) I1 H2 ltac:(frame) Logic.I R CI ltac:(cm Hcm)) as [K1 [K2 _]].
+      destruct (IHt2 eager st2 ctx FI64 b' st' G Hm2 Hc eq_refl Tb2 I2 H3 GF Logic.I R CI ltac:(cm Hcm)) as [K3 [K4 _]].
       rewrite tg_op, K1, K3. rewrite (has_ty_i64 _ K2), (has_ty_i64 _ K4). auto.
     - (* FIfC *)
       apply andb_true_iff in Hm. destruct Hm as [Hm Hm4]. apply andb_true_iff in Hm. destruct Hm as [Hm Hm3].
       apply andb_true_iff in Hm. destruct Hm as [Hm1 Hm2].
-      apply andb_true_iff in Hf. destruct Hf as [Hf Hf4]. apply andb_true_iff in Hf. destruct Hf as [Hf Hf3].
-      apply andb_true_iff in Hf. destruct Hf as [Hf1 Hf2].
+     
+     
       apply cbind_ok in Hk. destruct Hk as [[a' st1] [H1 Hk]].
       apply cbind_ok in Hk. destruct Hk as [[b' st2] [H2 Hk]].
       apply cbind_ok in Hk. destruct Hk as [[th' st3] [H3 Hk]].
@@ -294,29 +547,29 @@ Section Tg.
         - apply cbind_ok in H2. destruct H2 as [[b1 sb] [H2 H2']]. inversion H2'; subst.
           destruct (step_frame _ _ _ _ FI64 _ _ Hm2 Hc eq_refl Tb1 I1 H2) as [I2 [S2 [G2 Tb2]]]. splits; auto.
           intros GF2 Hcm2.
-          destruct (H b0 eq_refl eager st1 ctx FI64 b1 st2 G Hf2 Hm2 Hc eq_refl Tb1 I1 H2 GF2 Logic.I R CI Hcm2) as [K1 [K2 _]].
+          destruct (H b0 eq_refl eager st1 ctx FI64 b1 st2 G Hm2 Hc eq_refl Tb1 I1 H2 GF2 Logic.I R CI Hcm2) as [K1 [K2 _]].
           rewrite K1, (has_ty_i64 _ K2). reflexivity.
         - inversion H2; subst. splits; frame. }
       destruct Hb as [I2 [G2 [Tb2 Kb]]].
       destruct (step_frame _ _ _ _ _ _ _ Hm3 Hc HT Tb2 I2 H3) as [I3 [S3 [G3 Tb3]]].
       destruct (step_frame _ _ _ _ _ _ _ Hm4 Hc HT Tb3 I3 H4) as [I4 [S4 [G4 Tb4]]].
-      destruct (IHt1 eager st ctx FI64 a' st1 G Hf1 Hm1 Hc eq_refl Tb I H1 ltac:(frame) Logic.I R CI ltac:(cm Hcm)) as [K1 [K2 _]].
-      destruct (IHt2 eager st2 ctx T th' st3 G Hf3 Hm3 Hc HT Tb2 I2 H3 ltac:(frame) HiT R CI ltac:(cm Hcm)) as [K3 [K4 _]].
-      destruct (IHt3 eager st3 ctx T el' st' G Hf4 Hm4 Hc HT Tb3 I3 H4 GF HiT R CI ltac:(cm Hcm)) as [K5 [K6 _]].
+      destruct (IHt1 eager st ctx FI64 a' st1 G Hm1 Hc eq_refl Tb I H1 ltac:(frame) Logic.I R CI ltac:(cm Hcm)) as [K1 [K2 _]].
+      destruct (IHt2 eager st2 ctx T th' st3 G Hm3 Hc HT Tb2 I2 H3 ltac:(frame) HiT R CI ltac:(cm Hcm)) as [K3 [K4 _]].
+      destruct (IHt3 eager st3 ctx T el' st' G Hm4 Hc HT Tb3 I3 H4 GF HiT R CI ltac:(cm Hcm)) as [K5 [K6 _]].
       rewrite tg_ifc, K1, (has_ty_i64 _ K2), K3, K5, (same_ty_of _ _ K4), (same_ty_of _ _ K6).
       rewrite Kb; [auto|frame|]. destruct b' as [b1|]; [|discriminate]. cm Hcm.
     - (* FPrint *)
-      apply andb_true_iff in Hm. destruct Hm as [Hm1 Hm2]. apply andb_true_iff in Hf. destruct Hf as [Hf1 Hf2].
+      apply andb_true_iff in Hm. destruct Hm as [Hm1 Hm2].
       apply cbind_ok in Hk. destruct Hk as [[a' st1] [H1 Hk]].
       apply cbind_ok in Hk. destruct Hk as [[n' st2] [H2 Hk]]. inversion Hk; subst.
       destruct (step_frame _ _ _ _ FI64 _ _ Hm1 Hc eq_refl Tb I H1) as [I1 [S1 [G1 Tb1]]].
       destruct (step_frame _ _ _ _ _ _ _ Hm2 Hc HT Tb1 I1 H2) as [I2 [S2 [G2 Tb2]]].
-      destruct (IHt1 eager st ctx FI64 a' st1 G Hf1 Hm1 Hc eq_refl Tb I H1 ltac:(frame) Logic.I R CI ltac:(cm Hcm)) as [K1 [K2 _]].
-      destruct (IHt2 eager st1 ctx T n' st' G Hf2 Hm2 Hc HT Tb1 I1 H2 GF HiT R CI ltac:(cm Hcm)) as [K3 [K4 _]].
+      destruct (IHt1 eager st ctx FI64 a' st1 G Hm1 Hc eq_refl Tb I H1 ltac:(frame) Logic.I R CI ltac:(cm Hcm)) as [K1 [K2 _]].
+      destruct (IHt2 eager st1 ctx T n' st' G Hm2 Hc HT Tb1 I1 H2 GF HiT R CI ltac:(cm Hcm)) as [K3 [K4 _]].
       rewrite tg_print, K1, (has_ty_i64 _ K2), K3, (same_ty_of _ _ K4). auto.
     - (* FLet *)
       apply andb_true_iff in Hm. destruct Hm as [Hm Hm3]. apply andb_true_iff in Hm. destruct Hm as [Hm1 Hm2].
-      apply andb_true_iff in Hf. destruct Hf as [Hf1 Hf2].
+     
       apply cbind_ok in Hk. destruct Hk as [st1 [H1 Hk]].
       apply cbind_ok in Hk. destruct Hk as [[a' st2] [H2 Hk]].
       apply cbind_ok in Hk. destruct Hk as [[b' st3] [H3 Hk]]. inversion Hk; subst.
@@ -327,11 +580,11 @@ Section Tg.
       { apply ctx_names_ok_app; [assumption|]. unfold ctx_names_ok. simpl. rewrite Hm1. reflexivity. }
       destruct (step_frame _ _ _ _ _ _ _ Hm3 Hc' HT Tb2 I2 H3) as [I3 [S3 [G3 Tb3]]].
       assert (HiV : has_inst_p stF vty) by (eapply has_inst_grows; [|exact Hi1]; frame).
-      destruct (IHt1 eager st1 ctx vty a' st2 G Hf1 Hm2 Hc Hm1 Tb1 I1 H2 ltac:(frame) HiV R CI ltac:(cm Hcm)) as [K1 [K2 _]].
-      destruct (IHt2 eager st2 _ T b' st' _ Hf2 Hm3 Hc' HT Tb2 I2 H3 GF HiT (ctx_rel_snoc _ _ (mkfb v FPrd vty) R) (ctx_inst_snoc _ (mkfb v FPrd vty) CI HiV) ltac:(cm Hcm)) as [K3 [K4 _]].
+      destruct (IHt1 eager st1 ctx vty a' st2 G Hm2 Hc Hm1 Tb1 I1 H2 ltac:(frame) HiV R CI ltac:(cm Hcm)) as [K1 [K2 _]].
+      destruct (IHt2 eager st2 _ T b' st' _ Hm3 Hc' HT Tb2 I2 H3 GF HiT (ctx_rel_snoc _ _ (mkfb v FPrd vty) R) (ctx_inst_snoc _ (mkfb v FPrd vty) CI HiV) ltac:(cm Hcm)) as [K3 [K4 _]].
       rewrite tg_let, K1, (has_ty_of _ _ K2), (HtyF _ Hm1 HiV). unfold compile_binding in K3. simpl in K3. rewrite K3, (same_ty_of _ _ K4). auto.
     - (* FCall *)
-      rewrite terms_names_ok_eq in Hm. rewrite core_frags_eq in Hf.
+      rewrite terms_names_ok_eq in Hm.
       destruct (aget (st_defs st) f) as [[types ret]|] eqn:Ed; [|discriminate].
       rewrite (t_df _ _ _ Tb) in Ed. destruct (FunTyping.find_def fs f) as [d|] eqn:Ef; [|discriminate]. simpl in Ed. inversion Ed; subst.
       assert (Hdin : In d fs /\ fdname d = f).
@@ -349,11 +602,129 @@ Section Tg.
       assert (Hmain : negb (String.eqb (fdname d) "main") || calls_main_prog q = true).
       { destruct (String.eqb (fdname d) "main") eqn:Em; [|reflexivity]. simpl. apply Hcm. simpl. rewrite Em. reflexivity. }
       rewrite Hmain. simpl. rewrite (HtyF _ HT HiT). rewrite (proj2 (cty_eqb_eq _ _) eq_refl). auto.
+    - (* FCtor *)
+      apply andb_true_iff in Hm. destruct Hm as [Nx Hm]. rewrite terms_names_ok_eq in Hm.
+      apply cbind_ok in Hk. destruct Hk as [st0 [H0 Hk]].
+      destruct (eager_pstep ts fs W _ _ _ _ HT Tb I H0) as [I0 [S0 G0]].
+      pose proof (tables_same _ _ _ _ Tb S0) as Tb0.
+      destruct T as [|n targs]; [discriminate|].
+      pose proof HT as HT'. rewrite ty_names_ok_decl in HT'. apply andb_true_iff in HT'. destruct HT' as [Nn Nt].
+      destruct (aget (st_ctors st0) (x ++ print_targs targs)%string) as [types|] eqn:Ec; [|discriminate].
+      destruct (lookup_ty_for_xtor FData st0 (x ++ print_targs targs)%string) as [[ty xs]|] eqn:El; [|discriminate].
+      apply cbind_ok in Hk. destruct Hk as [[args' st1] [H1 Hk]].
+      apply cbind_ok in Hk. destruct Hk as [st2 [H2 Hk]]. inversion Hk; subst.
+      destruct (ctor_instance_sound ts fs W _ _ _ _ I0 Nx Nt Ec) as [td [s [Htd [Hp [Hs [Hsn [Hok ->]]]]]]].
+      destruct (lookup_ty_for_xtor_sound ts fs W _ _ _ _ _ _ I0 Nx Nt El) as [td2 [Htd2 [Hp2 [-> [-> [Hx2 _]]]]]].
+      assert (td2 = td).
+      { eapply (owner_of_names ts fs W); [exact Htd2|exact Htd|congruence|exact Hx2|]. rewrite <- Hsn. apply in_map. assumption. }
+      subst td2.
+      destruct (PW_sigs _ _ W td s Htd Hs) as [Nsg _].
+      assert (Nty : ctx_names_ok (inst_ctx (td_params td) targs (xs_args s)) = true) by (apply inst_ctx_names_ok; assumption).
+      destruct (check_args_psound ts fs W args (all_psound args) eager _ _ _ _ _ _ _ Hm Hc Nsg Nt Tb0 I0 H1) as [_ [I1 [S1 [G1 _]]]].
+      assert (S01 : same_templates st st1) by frame.
+      assert (Nty2 : ty_names_ok (FDecl (td_name td) targs) = true).
+      { rewrite ty_names_ok_decl, (PW_tnames _ _ W td Htd). exact Nt. }
+      destruct (check_equality_sound ts fs W _ _ _ _ HT Nty2 (tables_same _ _ _ _ Tb S01) I1 H2) as [Heq [_ [I2 [S2 [G2 _]]]]].
+      inversion Heq; subst n.
+      destruct (HdataF td targs Htd Hp Hok HiT) as [cs [Hfd HR]].
+      destruct (find_ctor_sig td targs x s _ cs HR) as [c [Hfc [En [Ea Ei]]]].
+      { rewrite <- Hsn. exact (find_xsig_of_in ts fs W td s Htd Hs). }
+      assert (K : tg_args G args' (compile_ctx (inst_ctx (td_params td) targs (xs_args s))) = true).
+      { apply (check_args_ptg args H eager _ st0 ctx args' st1 G Hm Hc Nty Tb0 I0 H1); [frame|exact R|exact CI|].
+        intros X. apply Hcm. simpl. rewrite any_calls_main_eq. exact X. }
+      rewrite tg_ctor. unfold tyo. cbn [fterm_type option_map]. rewrite compile_ty_decl, Hfd.
+      unfold find_cxtor. cbn [ctxtors]. rewrite Hfc. unfold compile_ctor. cbn [cxargs]. rewrite Ea, K. auto.
+    - (* FDtor *)
+      apply andb_true_iff in Hm. destruct Hm as [Hm Hm3]. apply andb_true_iff in Hm. destruct Hm as [Hm Hm2].
+      apply andb_true_iff in Hm. destruct Hm as [Nx Nt].
+      rewrite terms_names_ok_eq in Hm3.
+      apply cbind_ok in Hk. destruct Hk as [[[ty xs] st1] [H1 Hk]].
+      apply cbind_ok in Hk. destruct Hk as [[s' st2] [H2 Hk]].
+      destruct (lookup_or_template_psound ts fs W _ _ _ _ _ _ _ Tb I Nx Nt H1) as [td [Htd [Hp [-> [-> [Hx [Hok [I1 [S1 [G1 Hi1]]]]]]]]]].
+      assert (Nty : ty_names_ok (FDecl (td_name td) targs) = true).
+      { rewrite ty_names_ok_decl, (PW_tnames _ _ W td Htd). exact Nt. }
+      pose proof (tables_same _ _ _ _ Tb S1) as Tb1.
+      destruct (step_frame _ _ _ _ _ _ _ Hm2 Hc Nty Tb1 I1 H2) as [I2 [S2 [G2 Tb2]]].
+      destruct (aget (st_dtors st2) (x ++ print_targs targs)%string) as [[types ret]|] eqn:Ed; [|discriminate].
+      apply cbind_ok in Hk. destruct Hk as [[args' st3] [H3 Hk]].
+      apply cbind_ok in Hk. destruct Hk as [st4 [H4 Hk]]. inversion Hk; subst.
+      destruct (dtor_instance_sound ts fs W _ _ _ _ _ I2 Nx Nt Ed) as [td' [s [r0 [Htd' [Hp' [Hs [Hsn [_ [Hret [-> ->]]]]]]]]]].
+      assert (td' = td).
+      { eapply (owner_of_names ts fs W); [exact Htd'|exact Htd|congruence| |exact Hx]. rewrite <- Hsn. apply in_map. assumption. }
+      subst td'.
+      destruct (PW_sigs _ _ W td s Htd Hs) as [Nsg Nret]. rewrite Hret in Nret. simpl in Nret.
+      assert (Nsg' : ctx_names_ok (inst_ctx (td_params td) targs (xs_args s)) = true) by (apply inst_ctx_names_ok; assumption).
+      destruct (check_args_psound ts fs W args (all_psound args) eager _ _ _ _ _ _ _ Hm3 Hc Nsg Nt Tb2 I2 H3) as [_ [I3 [S3 [G3 _]]]].
+      assert (Nr : ty_names_ok (inst (td_params td) targs r0) = true) by (apply inst_names_ok; assumption).
+      destruct (check_equality_sound ts fs W _ _ _ _ HT Nr (tables_same _ _ _ _ Tb2 S3) I3 H4) as [Heq [_ [I4 [S4 [G4 _]]]]].
+      assert (HiS : has_inst_p stF (FDecl (td_name td) targs)) by (eapply has_inst_grows; [|exact Hi1]; frame).
+      destruct (IHt eager st1 ctx _ s' st2 G Hm2 Hc Nty Tb1 I1 H2 ltac:(frame) HiS R CI ltac:(cm Hcm)) as [K1 [K2 _]].
+      destruct (HcodataF td targs Htd Hp Hok HiS) as [ds [Hfd HR]].
+      destruct (find_dtor_sig td targs x s _ ds HR) as [c [Hfc [En [Ea [[r1 [Hr1 Er]] [Ei Hic]]]]]].
+      { rewrite <- Hsn. exact (find_xsig_of_in ts fs W td s Htd Hs). }
+      rewrite Hret in Hr1. inversion Hr1; subst r1. clear Hr1.
+      assert (K : tg_args G args' (compile_ctx (inst_ctx (td_params td) targs (xs_args s))) = true).
+      { apply (check_args_ptg args H eager _ st2 ctx args' st3 G Hm3 Hc Nsg' Tb2 I2 H3); [frame|exact R|exact CI|].
+        intros X. apply Hcm. simpl. rewrite any_calls_main_eq. rewrite X. apply orb_true_r. }
+      rewrite tg_dtor, K1. unfold tyo at 1. rewrite K2. cbn [option_map]. rewrite compile_ty_decl, Hfd.
+      unfold find_cxtor. cbn [ctxtors]. rewrite Hfc. unfold compile_dtor. cbn [cxargs]. rewrite split_last_snoc, Ea, K.
+      cbn [cbchi cbty]. rewrite Er, <- Heq. rewrite (has_ty_of (FDtor s' x targs args' (Some T)) T eq_refl). auto.
+    - (* FCase *)
+      apply andb_true_iff in Hm. destruct Hm as [Hm Hm3]. apply andb_true_iff in Hm. destruct Hm as [Nt Hm2].
+      rewrite clauses_names_ok_eq in Hm3.
+      destruct cls as [|[p0 x0 ns0 c0 b0] clr]; [discriminate|].
+      assert (Nx : name_ok x0 = true).
+      { simpl in Hm3. apply andb_true_iff in Hm3. destruct Hm3 as [Hm3 _]. unfold clause_names_ok in Hm3.
+        apply andb_true_iff in Hm3. tauto. }
+      apply cbind_ok in Hk. destruct Hk as [[[ty xs] st1] [H1 Hk]].
+      apply cbind_ok in Hk. destruct Hk as [[s' st2] [H2 Hk]].
+      apply cbind_ok in Hk. destruct Hk as [[[cls' leftover] st3] [H3 Hk]].
+      destruct leftover; [|discriminate]. inversion Hk; subst.
+      destruct (lookup_or_template_psound ts fs W _ _ _ _ _ _ _ Tb I Nx Nt H1) as [td [Htd [Hp [-> [-> [Hx [Hok [I1 [S1 [G1 Hi1]]]]]]]]]].
+      assert (Nty : ty_names_ok (FDecl (td_name td) targs) = true).
+      { rewrite ty_names_ok_decl, (PW_tnames _ _ W td Htd). exact Nt. }
+      pose proof (tables_same _ _ _ _ Tb S1) as Tb1.
+      destruct (step_frame _ _ _ _ _ _ _ Hm2 Hc Nty Tb1 I1 H2) as [I2 [S2 [G2 Tb2]]].
+      destruct (clauses_psound_result ts fs W eager true T td targs _ st2 ctx cls' st'
+                  (all_psound_cls _) Hm3 Hc Tb2 I2 Htd Hok Hp (fun _ => HT) H3)
+        as [_ [_ [I3 [S3 [G3 _]]]]].
+      assert (HiS : has_inst_p stF (FDecl (td_name td) targs)) by (eapply has_inst_grows; [|exact Hi1]; frame).
+      destruct (IHt eager st1 ctx _ s' st2 G Hm2 Hc Nty Tb1 I1 H2 ltac:(frame) HiS R CI ltac:(cm Hcm)) as [K1 [K2 _]].
+      destruct (HdataF td targs Htd Hp Hok HiS) as [cs [Hfd HR]].
+      assert (K : tg_clauses G (Some T) cls' (map compile_ctor cs) = true).
+      { apply (check_clauses_case_ptg T td targs (td_xtors td) (prep_clauses (check_term_gen eager) (FClause p0 x0 ns0 c0 b0 :: clr))
+                 st2 ctx cls' [] st' G cs
+                 (prep_clauses_psound ts fs eager _ (all_psound_cls _) Hm3) (prep_clauses_ptg eager _ H Hm3)
+                 Hc Tb2 I2 Htd Hok (fun s Hs => Hs) Hp HT HiT H3 GF R CI); [|exact HR].
+        intros X. apply Hcm. simpl. rewrite any_cls_cm_eq. rewrite X. apply orb_true_r. }
+      rewrite tg_case, K1. unfold tyo. rewrite K2. cbn [option_map]. rewrite compile_ty_decl, Hfd. cbn [ctxtors]. rewrite K. auto.
+    - (* FNew *)
+      rewrite clauses_names_ok_eq in Hm.
+      apply cbind_ok in Hk. destruct Hk as [st0 [H0 Hk]].
+      destruct (eager_pstep ts fs W _ _ _ _ HT Tb I H0) as [I0 [S0 G0]].
+      pose proof (tables_same _ _ _ _ Tb S0) as Tb0.
+      destruct T as [|n targs]; [discriminate|].
+      pose proof HT as HT'. rewrite ty_names_ok_decl in HT'. apply andb_true_iff in HT'. destruct HT' as [Nn Nt].
+      destruct (aget (st_types st0) (n ++ print_targs targs)%string) as [[[pol targs'] dtors]|] eqn:Eg; [|discriminate].
+      destruct pol; [discriminate|].
+      apply cbind_ok in Hk. destruct Hk as [[[cls' leftover] st1] [H1 Hk]].
+      destruct leftover; [|discriminate]. inversion Hk; subst.
+      destruct (pi_types _ _ I0 _ _ _ _ Eg) as [td [Htd [Ek [Hp [-> Hok]]]]].
+      destruct (instance_name_inj _ _ _ _ (name_ok_no_delim _ Nn) (name_ok_no_delim _ (PW_tnames _ _ W td Htd))
+                  Nt (targs_ok_names ts fs W _ _ Hok) Ek) as [-> <-].
+      destruct (HcodataF td targs Htd Hp Hok HiT) as [ds [Hfd HR]].
+      assert (K : tg_coclauses G cls' (map compile_dtor ds) = true).
+      { apply (check_clauses_new_ptg (FDecl (td_name td) targs) td targs (td_xtors td) (prep_clauses (check_term_gen eager) cls)
+                 st0 ctx cls' [] st' G ds
+                 (prep_clauses_psound ts fs eager _ (all_psound_cls _) Hm) (prep_clauses_ptg eager _ H Hm)
+                 Hc Tb0 I0 Htd Hok (fun s Hs => Hs) Hp H1 GF R CI); [|exact HR].
+        intros X. apply Hcm. simpl. rewrite any_cls_cm_eq. exact X. }
+      rewrite tg_new. unfold tyo. cbn [fterm_type option_map]. rewrite compile_ty_decl, Hfd. cbn [ctxtors]. rewrite K. auto.
     - (* FLabel *)
       apply cbind_ok in Hk. destruct Hk as [[u' st1] [H1 Hk]]. inversion Hk; subst.
       assert (Hc' : ctx_names_ok (ctx ++ [mkfb l FCns T]) = true).
       { apply ctx_names_ok_app; [assumption|]. unfold ctx_names_ok. simpl. rewrite HT. reflexivity. }
-      destruct (IHt eager st _ T u' st' _ Hf Hm Hc' HT Tb I H1 GF HiT (ctx_rel_snoc _ _ (mkfb l FCns T) R) (ctx_inst_snoc _ (mkfb l FCns T) CI HiT) ltac:(cm Hcm)) as [K1 [K2 _]].
+      destruct (IHt eager st _ T u' st' _ Hm Hc' HT Tb I H1 GF HiT (ctx_rel_snoc _ _ (mkfb l FCns T) R) (ctx_inst_snoc _ (mkfb l FCns T) CI HiT) ltac:(cm Hcm)) as [K1 [K2 _]].
       rewrite tg_label. unfold compile_binding in K1. simpl in K1. rewrite K1, (HtyF _ HT HiT), (has_ty_of _ _ K2). auto.
     - (* FGoto *)
       apply cbind_ok in Hk. destruct Hk as [cont [Hl Hk]].
@@ -362,16 +733,16 @@ Section Tg.
       destruct (lookup_covar_E _ _ _ Hl) as [_ [b1 [Hb1 Hbt1]]].
       assert (Hmf : ty_names_ok cont = true) by (subst cont; rewrite <- Hbt1; apply (ctx_names_ok_in ctx); assumption).
       assert (HiC : has_inst_p stF cont) by (rewrite <- Hbt1; apply CI; exact Hb1).
-      destruct (IHt eager st ctx cont u' st' G Hf Hm Hc Hmf Tb I H1 GF HiC R CI ltac:(cm Hcm)) as [K1 [K2 _]].
+      destruct (IHt eager st ctx cont u' st' G Hm Hc Hmf Tb I H1 GF HiC R CI ltac:(cm Hcm)) as [K1 [K2 _]].
       rewrite tg_goto, K1, K2. pose proof (var_ok_rel _ _ _ _ R Hb0) as Hv. rewrite Hb0c, Hbt in Hv. simpl in Hv. rewrite Hv.
       simpl. rewrite (HtyF _ Hmf HiC). auto.
     - (* FExit *)
       apply cbind_ok in Hk. destruct Hk as [[a' st1] [H1 Hk]]. inversion Hk; subst.
-      destruct (IHt eager st ctx FI64 a' st' G Hf Hm Hc eq_refl Tb I H1 GF Logic.I R CI ltac:(cm Hcm)) as [K1 [K2 _]].
+      destruct (IHt eager st ctx FI64 a' st' G Hm Hc eq_refl Tb I H1 GF Logic.I R CI ltac:(cm Hcm)) as [K1 [K2 _]].
       rewrite tg_exit, K1, (has_ty_i64 _ K2). simpl. rewrite (HtyF _ HT HiT). auto.
     - (* FParen *)
       apply cbind_ok in Hk. destruct Hk as [[u' st1] [H1 Hk]]. inversion Hk; subst.
-      destruct (IHt eager st ctx T u' st' G Hf Hm Hc HT Tb I H1 GF HiT R CI ltac:(cm Hcm)) as [K1 [K2 K3]].
+      destruct (IHt eager st ctx T u' st' G Hm Hc HT Tb I H1 GF HiT R CI ltac:(cm Hcm)) as [K1 [K2 K3]].
       rewrite tg_paren. simpl. auto.
   Qed.
 End Tg.
